@@ -166,5 +166,24 @@ mod harnesses {
         assert!(same(&a, &b), "C13 from_string agrees with new");
         assert!(same(&a, &c), "C13 TryFrom<String> agrees with new");
     }
+
+    /// the String constructors refuse every string of 17..=24 bytes as too long (complete for these lengths, any byte values that form ASCII text)
+    #[kani::proof]
+    #[kani::unwind(26)]
+    fn c13_string_too_long() {
+        use core::convert::TryFrom;
+        let bytes: [u8; 24] = kani::any();
+        let len: usize = kani::any();
+        kani::assume(len >= 17 && len <= 24);
+        let mut i = 0;
+        while i < 24 { kani::assume(bytes[i] < 0x80); i += 1; }
+        let s: &str = unsafe { core::str::from_utf8_unchecked(&bytes[..len]) };
+        let b = NormalizedString::from_string(String::from(s));
+        let c = NormalizedString::try_from(String::from(s));
+        kani::cover!(len == 17);
+        kani::cover!(len == 24);
+        assert!(matches!(b, Err(NormalizedStringError::StringTooLong)), "C13 from_string refuses strings longer than 16 bytes");
+        assert!(matches!(c, Err(NormalizedStringError::StringTooLong)), "C13 TryFrom<String> refuses strings longer than 16 bytes");
+    }
 }
 
